@@ -40,6 +40,55 @@ def classify(ctx, q, sem_obj, rec_text):
     return None
 
 
+def check_num(ctx, coq_ok):
+    """Num.v against Go: strconv.FormatFloat(x,'g',6,64), FormatInt and float64(int64) on boundary and random values"""
+    import struct
+    rng = ctx.rng
+    floats = [0.0, -0.0, 0.1, 0.5, 1.0, 999999.0, 1000000.0, 1234567.0, 1234565.0, 1234575.0, 999999.5, 9999995.0, 0.0001, 0.00001,
+              0.000012345651, 123456.5, 1e21, 1e22, 1e23, 5e-324, 2.2250738585072014e-308, 1.7976931348623157e308, 3.14, 2.675, 1e-7,
+              9007199254740992.0, 9007199254740994.0, 100000.0, 99999.95, 0.99999949999, 0.9999995, 1.5e300, 4.35, 1e5, 1e6, 1e-4, 1e-5,
+              float('inf'), float('-inf'), float('nan'), 123456.0, 1234560.0, 12345.678, -7.5, 0.30000000000000004, 1.1400000000000001]
+    for k in range(-10, 25):
+        floats += [10.0 ** k, 9.999995 * 10.0 ** k, 1.2345650 * 10.0 ** k, 1.2345649999 * 10.0 ** k, 5.0 * 10.0 ** k]
+    n = 250 if ctx.tier == "quick" else 5000
+    for _ in range(n):
+        floats.append(struct.unpack(">d", struct.pack(">Q", rng.getrandbits(64)))[0])
+        floats.append(rng.choice([1, -1]) * rng.random() * 10.0 ** rng.randint(-8, 12))
+        floats.append(float(rng.randint(-2000000, 2000000)) / rng.choice([1, 2, 4, 8, 10, 100, 1000]))
+    ints = [0, 1, -1, 7, 999999, 1000000, 1234567, 2 ** 53 - 1, 2 ** 53, 2 ** 53 + 1, 2 ** 53 + 2, 2 ** 53 + 3, -(2 ** 53) - 1, 2 ** 63 - 1,
+            -(2 ** 63), 2 ** 62 + 1, 2 ** 54 + 2, 2 ** 54 + 6, 2 ** 60 + 2 ** 7, 2 ** 60 + 2 ** 7 + 1, 2 ** 60 + 3 * 2 ** 7, 4611686018427387904]
+    for _ in range(n // 2):
+        ints.append(rng.randint(-(2 ** 63), 2 ** 63 - 1))
+        ints.append(rng.choice([1, -1]) * (2 ** rng.randint(53, 62) + rng.randint(-3000, 3000)))
+    lines = [["f%016x" % struct.unpack(">Q", struct.pack(">d", f))[0]] for f in floats] + [["i%d" % i] for i in ints]
+    res = kfl.run_cases(ctx, "num", lines)
+    if len(res) != len(lines):
+        ctx.broken.append("K_num: harness failed")
+        return
+    for l, o in zip(lines, res):
+        ctx.count_case(("num", l[0]), True, "num")
+    if not coq_ok:
+        return
+    fitems = ["(%s, %s)" % (o["coq"], vlib.coq_bytes(bytes.fromhex(o["g6"]))) for o in res[:len(floats)]]
+    iitems = ["(%s, %s, %s)" % (vlib.coq_z(i), o["coq"], vlib.coq_bytes(bytes.fromhex(o["g6"]))) for i, o in zip(ints, res[len(floats):])]
+    src = ("Require Import V.Base.Prelude V.Kfl.Num V.Kfl.Json.\nLocal Open Scope Z_scope.\n"
+           "Definition fcases : list (fv * bytes) := [\n" + ";\n".join(fitems) + "].\n"
+           "Definition icases : list (Z * fv * bytes) := [\n" + ";\n".join(iitems) + "].\n"
+           "Definition MF := Eval vm_compute in failing (fun c => bytes_eqb (fmt_g6 (fst c)) (snd c)) fcases.\nPrint MF.\n"
+           "Definition MI := Eval vm_compute in failing (fun c => let '(z, f, s) := c in fv_same (f_of_Z z) f && bytes_eqb (fmt_int z) s) icases.\nPrint MI.\n")
+    rc, out = ctx.coq_run("knum", src, timeout=600)
+    mf, mi = vlib.parse_coq_list_of_nat(out, "MF"), vlib.parse_coq_list_of_nat(out, "MI")
+    if rc != 0 or mf is None or mi is None:
+        ctx.broken.append("K_num: coqc failed on the case file")
+        ctx.log(out[-800:])
+        return
+    ctx.cov["num_cases"] = {"floats": len(floats), "ints": len(ints)}
+    for i in mf[:3]:
+        ctx.broken.append("K_num: Num.fmt_g6 differs from strconv.FormatFloat(%r,'g',6,64) = %s" % (floats[i], bytes.fromhex(res[i]["g6"])))
+    for i in mi[:3]:
+        ctx.broken.append("K_num: Num.f_of_Z / fmt_int differs from Go on %d" % ints[i])
+
+
 def run(ctx):
     ctx.build_harness()
     if not ctx.harness_tagged:
@@ -172,12 +221,14 @@ def run(ctx):
                     cls = classify(ctx, q, sem_obj, rt)
                     if not (cls and ctx.is_known(cls)):
                         ctx.violation({"kind": "truth-vs-coq-spec", "query": qt, "record": rt, "observed": res[i]["truth"],
+                                       "expected": not res[i]["truth"],
                                        "how": "vh-kfl eval; KflSem.sem on the dumped tree"})
                 if code & 4:
                     ctx.broken.append("K_limit: limit of the model differs from Precompute on %r" % qt)
                 if code & 8:
                     ctx.broken.append("C12_limit instance fails on %r" % qt)
             ctx.log("correspondence: %d cases in %.1fs (%d with a defined Coq sem)" % (len(codes), time.time() - t0, sem_defined))
+    check_num(ctx, coq_ok)
     ctx.cov["oracle"] = stats
     ctx.cov["coq_sem_defined"] = sem_defined
     for b in ctx.broken[:5]:
